@@ -101,8 +101,10 @@ def c02_axis(ctx, case):
     ctx.check(abs(obj.df - fs / float(nfft)) <= 1e-12 * fs, "%s: df=%r, expected %r" % (row, obj.df, fs / nfft), sig=sig)
     ctx.check(obj.sides == ("onesided" if real else "twosided"), "%s: default sides %r" % (row, obj.sides), sig=sig)
     # the axis the object reports after its sampling frequency is changed (the first axis has been read above)
-    fs2 = 3.0 * fs
+    # (a different rate, or a calibration: the same rate corrected by a few parts per million)
+    fs2 = [3.0, 1.0 + 4e-6, 1.0 - 6.5e-6, 1.0 + 1e-9, 0.5, 1.0 + 2.0 ** -40][(N + nfft + len(row)) % 6] * fs
     obj.sampling = fs2
+    ctx.cls("rate x%.3g" % (fs2 / fs) if abs(fs2 / fs - 1) > 1e-3 else "rate recalibrated")
     fr2 = np.asarray(obj.frequencies(), dtype=float)
     ctx.check(len(fr2) == len(np.asarray(obj.psd)), "%s: after sampling was changed frequencies() has %d entries, psd %d"
               % (row, len(fr2), len(np.asarray(obj.psd))), sig=dict(sig, clause="axis-after-sampling-change"))
@@ -145,7 +147,10 @@ def ctone_case(draw):
     return {"row": row, "n": N, "nfft": nfft, "k": k, "params": p,
             "amp": draw(st.floats(0.5, 5.0)), "phase": draw(st.floats(0, 6.283)),
             "noise": draw(st.sampled_from([1e-4, 1e-3, 1e-2])), "seed": draw(gen.seeds),
-            "sampling": draw(st.sampled_from([1.0, 2.0, 0.5, 1000.0]))}
+            "sampling": draw(st.sampled_from([1.0, 2.0, 0.5, 1000.0])),
+            # how the record is stored: native complex128, single precision (I/Q recordings), the other byte order (a file
+            # written on a big-endian machine)
+            "store": draw(st.sampled_from(["c128", "c128", "c128", "c128", "c64", "swapped"]))}
 
 
 def circ(d, nfft):
@@ -163,11 +168,22 @@ def c02_ctone(ctx, case):
         + case["noise"] * case["amp"] * (rng.standard_normal(N) + 1j * rng.standard_normal(N))
     fs = case["sampling"]
     sig = {"row": row, "parity": nfft % 2, "clause": "ctone"}
+    store = case.get("store", "c128")
+    if store == "c64" and not (row in ("Periodogram", "pcorrelogram") or row.startswith("mtm_")):
+        # the model-based estimators keep the precision of their input: a tone 80 dB above the noise leaves a residual below
+        # single-precision rounding (negative error power, arbitrary model); not a statement about where the peak is reported
+        store = "c128"
+    if store == "c64":
+        x = x.astype(np.complex64)
+    elif store == "swapped":
+        x = x.astype(x.dtype.newbyteorder())
+    if store != "c128":
+        sig["store"] = store
     ctx.sig_on_exception = sig
     obj = est.build(row, x, p, NFFT=nfft, sampling=fs, scale_by_freq=False)
     psd = np.real(est.psd_of(obj))
     fr = np.asarray(obj.frequencies(), dtype=float)
-    ctx.cls(row, "k<0" if k < 0 else ("k=0" if k == 0 else "k>0"), "odd" if nfft % 2 else "even")
+    ctx.cls(row, "k<0" if k < 0 else ("k=0" if k == 0 else "k>0"), "odd" if nfft % 2 else "even", "store=" + store)
     ctx.nontrivial(nfft != N or nfft % 2 == 1 or k < 0 or N % 2 == 1)
     ctx.check(len(psd) == len(fr) == nfft, "%s: %d values / %d frequencies for NFFT=%d" % (row, len(psd), len(fr), nfft), sig=sig)
     ctx.check(np.all(np.isfinite(psd)), "%s: PSD not finite" % row, sig=sig)
